@@ -233,6 +233,11 @@ def evalHist (ctx : Ctx) (vS scriptS : String) : Option Result := do
       else if op == "c" then
         let g := st.gens.getD st.cur (Model.genInit ctx.cfg v)
         { st with gens := st.gens.push g, outs := "-" :: st.outs }
+      else if op.startsWith "cf:" then
+        -- `clone_from`: handle k := current handle
+        let k := ((op.drop 3).toString.toNat?).getD 0
+        let g := st.gens.getD st.cur (Model.genInit ctx.cfg v)
+        { st with gens := st.gens.setIfInBounds k g, outs := "-" :: st.outs }
       else if op.startsWith "s:" then
         { st with cur := ((op.drop 2).toString.toNat?).getD 0, outs := "-" :: st.outs }
       else st) st0
